@@ -297,8 +297,11 @@ pub fn cpp_driver(case: &Case) -> Result<(String, Expected), String> {
                             let shows: String = ps.iter().enumerate().map(|(i, p)| format!("std::printf(\" \"); {} ", gg.show(p, &format!("x{i}")))).collect();
                             let ret = if has_ret { let mut gi = Gen::new(&env); format!("return {};", gi.init(r, cret)) } else { String::new() };
                             let sig = format!("{}({})", if has_ret { g.cpp_ty(r) } else { "void".into() }, ps.iter().map(|p| g.cpp_ty(p)).collect::<Vec<_>>().join(", "));
-                            args.push(format!("std::function<{sig}>([]({}) {{ std::printf(\"cb {abi}.{n}:\"); {shows}std::printf(\"\\n\"); {ret} }})", params.join(", ")));
-                            cb_lines.push(format!("cb {abi}.{n}:{}", cargs.iter().map(|a| format!(" {}", a.show())).collect::<String>()));
+                            // a callable that owns state (captured by value, `mutable`): the call number
+                            args.push(format!("std::function<{sig}>([cnt = 0]({}) mutable {{ ++cnt; std::printf(\"cb {abi}.{n}#%d:\", cnt); {shows}std::printf(\"\\n\"); {ret} }})", params.join(", ")));
+                            for k in 1..=2 {
+                                cb_lines.push(format!("cb {abi}.{n}#{k}:{}", cargs.iter().map(|a| format!(" {}", a.show())).collect::<String>()));
+                            }
                             rust_line += &format!(" {n}={}", if has_ret { cret.show() } else { "called".to_string() });
                         }
                         _ => {
